@@ -287,6 +287,38 @@ def _network(arr, metric, kw, par, variant, R_plot, missing, acc,
     if not bad:
         _rate_value(net, "RecurrenceNetwork", net.R, tag, acc)
     acc.see(_rqa(net, "RecurrenceNetwork", tag, acc, bad))
+    # the setter route: re-applying the same rule through the public setter
+    # must give the same R (diagonal included) and the same adjacency
+    if len(par) == 1 and not any(missing):
+        (k, val), = par.items()
+        setter = SETTERS.get(k)
+        if setter is not None:
+            acc.evals += 1
+            try:
+                getattr(net, setter)(val)
+            except Exception as e:   # noqa
+                acc.v("RecurrenceNetwork.%s:raises:%s" % (setter, tag),
+                      _exc(e), _exc(e), "re-thresholded network")
+                return
+            R2 = _mat(net.recurrence_matrix())
+            if R2.shape != R_plot.shape or not np.array_equal(R2, R_plot):
+                acc.v("RecurrenceNetwork.%s:R-differs-from-plot:%s" % (
+                    setter, tag), "%s %r: after the setter R is not the "
+                    "matrix of the equally parametrised plot" % (metric,
+                                                                   par),
+                      R2, R_plot)
+            A2 = _mat(net.adjacency)
+            if A2.shape != want.shape or not np.array_equal(A2, want):
+                acc.v("RecurrenceNetwork.%s:adjacency:%s" % (setter, tag),
+                      "%s %r: after the setter the adjacency is not R "
+                      "without its diagonal" % (metric, par), A2, want)
+
+
+SETTERS = {"threshold": "set_fixed_threshold",
+           "threshold_std": "set_fixed_threshold_std",
+           "recurrence_rate": "set_fixed_recurrence_rate",
+           "local_recurrence_rate": "set_fixed_local_recurrence_rate",
+           "adaptive_neighborhood_size": "set_adaptive_neighborhood_size"}
 
 
 def _plot(arr, metric, kw, par, variant, exp, boundary, missing, acc,
